@@ -2,7 +2,7 @@ CONSTANTS
   Kinds = {"named_struct", "tuple_struct", "unit_struct", "enum", "union", "generic_struct", "alias", "const"}
   OuterArgs = {"bare", "swift"}
   Helpers = {"skip", "serialized_as", "stacked", "stacked_apart"}
-  Mixes = {"none", "serde", "cfg_attr"}
+  Mixes = {"none", "serde", "cfg_attr", "docs_after"}
   MaxPos = 4
 INIT Init
 NEXT Next
